@@ -65,6 +65,8 @@ structure GraphMeta where
 structure Decision where
   placements : List PlacementS
   runtime : Int
+  /-- the policy raised instead of returning (the exception class is the recorded decision) -/
+  raised : Option SErr := none
   deriving Repr
 
 abbrev Row := List String
@@ -482,6 +484,7 @@ def handleSchedulerStart (ev : SEvent) : SimM Unit := do
   | [] => throw .fuel
   | d :: rest =>
     set { s with decisions := rest, lastPlacements := some d }
+    if let some e := d.raised then throw e      -- `scheduler.schedule(...)` raised: the run aborts here
     addEvent (← mkEvent ET.schedulerFinished (ev.ev.time + d.runtime))
 
 /-- Number of PLACE_TASK decisions with / without a worker pool (the `num_placed` /
